@@ -114,18 +114,32 @@ func c02Check(r *ev.Run, n *wire.N, h bind.Hist) {
 	if pn != nil || err != nil {
 		return
 	}
-	r.Add("transitions", 2)
-	got, werr := wire.Decode(b)
-	if werr != nil {
-		we := werr.(*wire.Err)
-		bad("walk:"+locus(we.Path)+":"+errClass(we.Msg), "the walker fails: "+we.Error())
-		r.Outcome("walk-fails")
-		return
+	r.Add("transitions", 3)
+	// a message may be sent more than once (several switches, resend): the second encoding of the
+	// same value is held to the same grammar
+	b = append([]byte{}, b...)
+	b2, err2, pn2 := safeEncode(m)
+	for i, enc := range [][]byte{b, b2} {
+		which := ""
+		if i == 1 {
+			if pn2 != nil || err2 != nil {
+				break
+			}
+			which = " (second encoding of the same value)"
+		}
+		got, werr := wire.Decode(enc)
+		if werr != nil {
+			we := werr.(*wire.Err)
+			bad("walk:"+locus(we.Path)+":"+errClass(we.Msg), "the walker fails"+which+": "+we.Error())
+			r.Outcome("walk-fails")
+			return
+		}
+		if d := structDiff("", expectedTree(n), got); d != "" {
+			bad("visit:"+locus(d), "the walker does not visit what was added"+which+": "+d)
+			return
+		}
 	}
 	r.Outcome("walk-ok")
-	if d := structDiff("", expectedTree(n), got); d != "" {
-		bad("visit:"+locus(d), "the walker does not visit what was added: "+d)
-	}
 }
 
 func c02(r *ev.Run, replay string) {
